@@ -135,6 +135,36 @@ def run_case(case):
         return _run_case(case)
 
 
+_KEEP = []
+
+
+def _intruder(o, cfg):
+    signal.alarm(3)
+    try:
+        try:
+            o2 = copy.deepcopy(o)
+            o2["unit"] = cfg["unit"]
+            spec = make_obj(o2)
+            spec.parse()
+            _KEEP.append(spec)
+            del _KEEP[:-4]
+            vs = o2.get("declare", o2["vars"])
+            if cfg.get("pastify"):
+                spec.pastify()
+            if "Offline" in o2["factory"] or (cfg.get("offline") and "Online" not in o2["factory"]):
+                d = {"time": [0, 1, 2]}
+                for v in vs:
+                    d[v] = [1, 0, 2]
+                spec.evaluate(d)
+            else:
+                for t in range(3):
+                    spec.update(t, [[v, 1] for v in vs])
+        finally:
+            signal.alarm(0)
+    except BaseException:  # noqa
+        pass
+
+
 def _run_case(case):
     out = copy.deepcopy(case)
     specs = {}
@@ -145,6 +175,12 @@ def _run_case(case):
         o.setdefault("implAst", {"op": "none"})
         o.setdefault("implKnown", False)
         o.setdefault("implPast", {"op": "none"})
+    if case.get("intruder"):
+        # another live specification object in the same process - a twin of object 1 (same text, same sampling period) configured
+        # with another default unit - is parsed and exercised first; whatever it does or raises is ignored.  Objects are isolated
+        # (C11), so the case's own objects must behave as the specification says (seeds r9 C08-1, C11-3: a class-level memo of
+        # sample counts keyed without the default unit)
+        _intruder(out["objs"][0], case["intruder"])
     for ev in out["events"]:
         oi = ev["o"]
         o = out["objs"][oi - 1]
